@@ -8,8 +8,8 @@ package doccomposer
 
 import (
 	"encoding/json"
+	"errors"
 	"fmt"
-	"strings"
 
 	jsonpatch "github.com/evanphx/json-patch"
 
@@ -100,18 +100,18 @@ func applyJSON(doc document.Document, entry interface{}) (document.Document, err
 		return nil, err
 	}
 
-	// The 'copy' operation of the JSON patch library stores the source node itself at the destination (it does not
-	// copy it). Operations are therefore applied one at a time, each to the serialized result of the previous one,
-	// so that two locations never share a node across operations; within one operation the destination must not
-	// lie inside the source. Otherwise the document could be made to contain itself, and serializing such a
-	// document never terminates (stack overflow).
+	// operations are applied one at a time, each to the serialized result of the previous one
 	for i := range jsonPatches {
-		err = validateCopyDestination(jsonPatches[i])
-		if err != nil {
-			return nil, err
+		operation := jsonPatches[i : i+1]
+
+		if stringMember(jsonPatches[i], opMember) == copyOperation {
+			operation, err = copyAsAdd(docBytes, jsonPatches[i])
+			if err != nil {
+				return nil, err
+			}
 		}
 
-		docBytes, err = jsonPatches[i : i+1].Apply(docBytes)
+		docBytes, err = applyWithoutCopy(docBytes, operation)
 		if err != nil {
 			return nil, err
 		}
@@ -120,20 +120,77 @@ func applyJSON(doc document.Document, entry interface{}) (document.Document, err
 	return document.FromBytes(docBytes)
 }
 
-// validateCopyDestination returns an error if the operation copies a value to a location inside that value.
-func validateCopyDestination(op map[string]*json.RawMessage) error {
-	if stringMember(op, "op") != "copy" {
-		return nil
+const (
+	opMember      = "op"
+	copyOperation = "copy"
+)
+
+// applyWithoutCopy hands JSON patch operations other than 'copy' to the JSON patch library.
+//
+// The 'copy' operation of the library stores the source node itself at the destination instead of a copy of it: two
+// locations then share a node and the document can be made to contain itself (by copying a value to a location inside
+// that value, however the two pointers are spelled), after which serializing it never terminates (stack overflow).
+// A 'copy' therefore never reaches the library (see copyAsAdd). The library also panics on some malformed operations
+// (negative array index, 'test' without value); a panic is returned as an error.
+func applyWithoutCopy(docBytes []byte, operations jsonpatch.Patch) (result []byte, err error) {
+	defer func() {
+		if r := recover(); r != nil {
+			result, err = nil, fmt.Errorf("JSON patch operation failed: %v", r)
+		}
+	}()
+
+	for _, op := range operations {
+		if stringMember(op, opMember) == copyOperation {
+			return nil, errors.New("JSON patch copy operation has to be applied as add operation")
+		}
 	}
 
-	from := stringMember(op, "from")
-	path := stringMember(op, "path")
+	return operations.Apply(docBytes)
+}
 
-	if strings.HasPrefix(path, from+"/") {
-		return fmt.Errorf("JSON patch copy operation: destination '%s' is inside the source '%s'", path, from)
+// copyAsAdd returns the 'add' operation that a 'copy' operation is defined to be (RFC 6902, section 4.5): an 'add' at
+// the target location using the value found at 'from'. The value is obtained from the serialized document (by letting
+// the library move it out of a wrapped copy of the document), so it shares nothing with the document.
+func copyAsAdd(docBytes []byte, op map[string]*json.RawMessage) (jsonpatch.Patch, error) {
+	wrapped, err := json.Marshal(map[string]json.RawMessage{"doc": docBytes})
+	if err != nil {
+		return nil, err
 	}
 
-	return nil
+	move, err := json.Marshal([]map[string]string{
+		{opMember: "move", "from": "/doc" + stringMember(op, "from"), "path": "/value"},
+	})
+	if err != nil {
+		return nil, err
+	}
+
+	movePatch, err := jsonpatch.DecodePatch(move)
+	if err != nil {
+		return nil, err
+	}
+
+	moved, err := applyWithoutCopy(wrapped, movePatch)
+	if err != nil {
+		return nil, err
+	}
+
+	var holder struct {
+		Value json.RawMessage `json:"value"`
+	}
+
+	err = json.Unmarshal(moved, &holder)
+	if err != nil {
+		return nil, err
+	}
+
+	add, err := json.Marshal([]map[string]interface{}{
+		{opMember: "add", "path": stringMember(op, "path"), "value": holder.Value},
+	})
+	if err != nil {
+		return nil, err
+	}
+
+	return jsonpatch.DecodePatch(add)
 }
 
 // stringMember returns the string value of the given member of a JSON patch operation ("" if missing or not a string).
